@@ -249,6 +249,21 @@ pub fn eval_arr(spec: &ArrSpec, h: u64) -> (Vec<u64>, Vec<u64>) {
     (f, got)
 }
 
+/// far window (f0, f0 + w]: values f(f0..=f0+w) and the yielded steps that fall into it
+pub fn eval_arr_far(spec: &ArrSpec, f0: u64, w: u64) -> (Vec<u64>, Vec<u64>) {
+    use response_time_analysis::arrival::ArrivalBound;
+    let ab = spec.build();
+    let f: Vec<u64> = (f0..=f0 + w).map(|x| ab.number_arrivals(d(x)) as u64).collect();
+    let got: Vec<u64> = ab
+        .steps_iter()
+        .map(du)
+        .take(40 * (f0 + w) as usize)
+        .take_while(|x| *x <= f0 + w)
+        .filter(|x| *x > f0)
+        .collect();
+    (f, got)
+}
+
 pub fn eval_rb(spec: &RbSpec, h: u64) -> (Vec<u64>, Vec<u64>) {
     spec.with(&mut |rb| {
         let f: Vec<u64> = (0..=h).map(|x| su(rb.service_needed(d(x)))).collect();
@@ -292,6 +307,35 @@ pub fn run(ctx: &mut Ctx) -> (String, Value, Vec<String>) {
             Err(None) => ctx.violation(&format!("{name}::steps_iter#does-not-terminate"), &format!("{:?}: no answer within 20 s", spec), "steps-arr", json!({"spec": spec, "h": h})),
         }
     }
+    // "over an arbitrarily long horizon": a far window for every leaf model and a sample of the
+    // compositions (thorough tier)
+    let mut far = 0u64;
+    if !ctx.quick() {
+        let (f0, w) = (2500u64, 60u64);
+        for (i, spec) in specs.iter().enumerate() {
+            let leaf = i < leaf_menu(false).len();
+            if !leaf && i % 23 != 0 {
+                continue;
+            }
+            // nothing arrives: nothing to compare far out
+            evals += 1;
+            far += 1;
+            let sp = spec.clone();
+            let name = type_name(spec);
+            match with_timeout(30.0, move || eval_arr_far(&sp, f0, w)) {
+                Ok((f, got)) => {
+                    let want: Vec<u64> = (1..=w).filter(|k| f[*k as usize - 1] < f[*k as usize]).map(|k| f0 + k).collect();
+                    if want != got {
+                        let sym = if want.iter().any(|x| !got.contains(x)) { "missing-step" } else { "spurious-step" };
+                        let key = if contains_prefix(spec) && false { String::new() } else { format!("{name}::steps_iter#{sym}-far-out") };
+                        ctx.violation(&key, &format!("{:?}: in ({f0}, {}] the bound increases at {:?} but steps_iter yields {:?}", spec, f0 + w, &want[..want.len().min(8)], &got[..got.len().min(8)]), "steps-arr-far", json!({"spec": spec, "f0": f0, "w": w}));
+                    }
+                }
+                Err(Some(e)) => ctx.violation(&format!("{name}::steps_iter#panic"), &format!("{:?}: panic far out: {e}", spec), "steps-arr-far", json!({"spec": spec, "f0": f0, "w": w})),
+                Err(None) => ctx.violation(&format!("{name}::steps_iter#does-not-terminate"), &format!("{:?}: no answer within 30 s for the window beyond {f0}", spec), "steps-arr-far", json!({"spec": spec, "f0": f0, "w": w})),
+            }
+        }
+    }
     let rbs = rb_menu(ctx.quick());
     for spec in &rbs {
         evals += 1;
@@ -324,6 +368,7 @@ pub fn run(ctx: &mut Ctx) -> (String, Value, Vec<String>) {
         "arrival_bounds": specs.len(),
         "request_bounds": rbs.len(),
         "horizon": h,
+        "far_window_evaluations": far,
         "samples": samples,
         "exhaustive": true,
     });
@@ -331,6 +376,21 @@ pub fn run(ctx: &mut Ctx) -> (String, Value, Vec<String>) {
 }
 
 pub fn replay(kind: &str, case: &Value) -> bool {
+    if kind == "steps-arr-far" {
+        let spec: ArrSpec = serde_json::from_value(case["spec"].clone()).unwrap();
+        let (f0, w) = (case["f0"].as_u64().unwrap(), case["w"].as_u64().unwrap());
+        return match with_timeout(30.0, move || eval_arr_far(&spec, f0, w)) {
+            Ok((f, got)) => {
+                let want: Vec<u64> = (1..=w).filter(|k| f[*k as usize - 1] < f[*k as usize]).map(|k| f0 + k).collect();
+                println!("replay: increases at {:?}, steps_iter yields {:?}", want, got);
+                want != got
+            }
+            Err(e) => {
+                println!("replay: {:?}", e);
+                true
+            }
+        };
+    }
     let h = case["h"].as_u64().unwrap_or(64);
     let r = if kind == "steps-arr" {
         let spec: ArrSpec = serde_json::from_value(case["spec"].clone()).unwrap();
